@@ -57,14 +57,29 @@ def make_case(rng, idx, forms=True):
     allowed |= set(rng.sample(values, min(len(values), rng.randint(0, 6))))
     allowed |= {rng.randint(100000, 200000)}  # decoy
     extra = rng.choice([v for v in values if v not in allowed] or [424242])
+    lang_over = {}
+    for lang in ("python", "typescript", "javascript", "rust"):
+        if rng.random() < 0.2:
+            lang_over[lang] = sorted(set(rng.sample(DEFAULT_ALLOWED, rng.randint(0, 5))) | set(rng.sample(values, min(len(values), rng.randint(0, 4)))))
     return {"idx": idx, "files": files, "occ": occ, "allowed": sorted(allowed), "max_small": max_small, "extra": extra,
-            "carrier": rng.choice(["yaml", "json"])}
+            "carrier": rng.choice(["yaml", "json"]), "lang_over": lang_over}
+
+
+LANG_OF = {"py": "python", "ts": "typescript", "js": "javascript", "rs": "rust"}
+
+
+def eff_allowed(case, f, allowed):
+    """Effective allowed_numbers for a file: its language section if there is one, else the top-level list."""
+    return case.get("lang_over", {}).get(LANG_OF.get(f.rsplit(".", 1)[1]), allowed)
 
 
 def cfg_files(case, allowed, max_small):
     sec = {"enabled": True, "allowed_numbers": allowed, "max_small_integer": max_small}
+    for lang, nums in case.get("lang_over", {}).items():
+        sec[lang] = {"allowed_numbers": nums}   # partial section: max_small_integer stays with the top-level value
     if case["carrier"] == "yaml":
-        return {".thailint.yaml": "magic-numbers:\n  enabled: true\n  allowed_numbers: %s\n  max_small_integer: %d\n" % (json.dumps(allowed), max_small)}
+        import yaml
+        return {".thailint.yaml": yaml.safe_dump({"magic-numbers": sec})}
     return {".thailint.json": json.dumps({"magic-numbers": sec})}
 
 
@@ -92,8 +107,8 @@ def exec_case(case):
 
 def expected_rows(case, allowed, max_small_delta=0):
     exp = Counter()
-    aset = set(allowed)
     for f, occ in case["occ"].items():
+        aset = set(eff_allowed(case, f, allowed))
         for o in occ:
             cat = o["cat"]
             if cat in ("range", "enumerate"):
@@ -157,7 +172,7 @@ def run(ctx):
         # (a) exact equality for configuration A (range/enumerate lines judged separately)
         exp = expected_rows(case, case["allowed"])
         unjudged = {(f, o2["line"]) for f, occ in case["occ"].items() for o2 in occ
-                    if o2.get("neg") and ((o2["value"] in case["allowed"]) != (-o2["value"] in case["allowed"]))}
+                    if o2.get("neg") and ((o2["value"] in eff_allowed(case, f, case["allowed"])) != (-o2["value"] in eff_allowed(case, f, case["allowed"])))}
         range_plain |= unjudged
         got = Counter({(k[0], k[1], abs(k[2]) if k[2] is not None and (k[0], k[1]) in {(f, o2["line"]) for f, occ in case["occ"].items() for o2 in occ if o2.get("neg")} else k[2]): n
                        for k, n in obs["A"].items() if (k[0], k[1]) not in range_lines and (k[0], k[1]) not in range_plain})
@@ -194,15 +209,19 @@ def run(ctx):
             ctx.count("range_enumerate_exempt_checked")
             hit = [k for k in obs["A"] if k[0] == f and k[1] == line]
             o2 = [x for x in case["occ"][f] if x["line"] == line][0]
-            if hit and o2["value"] not in case["allowed"]:
+            if hit and o2["value"] not in eff_allowed(case, f, case["allowed"]):
                 ctx.discrepancy("spurious:py:%s:small-int" % o2["cat"], "case %d %s:%d %d inside %s() with max_small_integer=%d is reported" % (
                     case["idx"], f, line, o2["value"], o2["cat"], case["max_small"]), rep, files)
         # (b) delta law
         v = case["extra"]
-        lost = obs["A"] - obs["A+v"]
+        overridden = {f for f in case["occ"] if LANG_OF.get(f.rsplit(".", 1)[1]) in case.get("lang_over", {})}
+        lost = Counter({k: n for k, n in (obs["A"] - obs["A+v"]).items() if k[0] not in overridden})
         gained = obs["A+v"] - obs["A"]
         ctx.count("delta_law_checked")
-        if gained or any(k[2] != v for k in lost) or any(k[2] == v for k in obs["A+v"]):
+        if (obs["A"] - obs["A+v"]).keys() & {k for k in obs["A"] if k[0] in overridden}:
+            ctx.discrepancy("delta-law:language-section-ignored", "case %d: adding %r to the top-level allowed_numbers changed files whose language has its own allowed_numbers: %r" % (
+                case["idx"], v, [k for k in (obs["A"] - obs["A+v"]) if k[0] in overridden][:2]), rep, files)
+        if gained or any(k[2] != v for k in lost) or any(k[2] == v and k[0] not in overridden for k in obs["A+v"]):
             ctx.discrepancy("delta-law", "case %d: adding %r to allowed_numbers: lost %r gained %r remaining-with-value %r" % (
                 case["idx"], v, list(lost.elements())[:3], list(gained.elements())[:3], [k for k in obs["A+v"] if k[2] == v][:2]), rep, files)
         # (c) max_small_integer only changes range/enumerate literals, and only removes
